@@ -53,9 +53,10 @@ theorem deps_resolve {applied : List DChange} {i : Nat} :
     have h1 := hlt h (List.mem_cons_self ..)
     have hlen : hashIdx applied h < applied.length := by omega
     rw [List.map_cons, List.filterMap_cons, List.getElem?_take_of_lt h1, List.getElem?_eq_getElem hlen]
-    have : (applied[hashIdx applied h]).c.hash = h := by
-      have := List.findIdx_getElem (p := fun d => d.c.hash == h) (xs := applied) (w := hlen)
-      simpa using this
+    have key : ∀ (hl : List.findIdx (fun d => d.c.hash == h) applied < applied.length),
+        (applied[List.findIdx (fun d => d.c.hash == h) applied]).c.hash = h := fun hl => by
+      simpa using List.findIdx_getElem (p := fun d => d.c.hash == h) (xs := applied) (w := hl)
+    have : (applied[hashIdx applied h]).c.hash = h := key hlen
     simp only [Option.map_some, this]
     rw [deps_resolve (fun x hx => hlt x (List.mem_cons_of_mem _ hx)) hi]
 
@@ -107,17 +108,16 @@ theorem rebuildChange_applied {applied : List DChange} (hr : ReconOk applied) {i
   simp only [hdany, Bool.false_eq_true, if_false]
   rw [otherIdx_recOf hts hauth hops, filterMap_getElem_idxOf hothers, deps_resolve hdeps (by omega)]
   -- the first op
-  have hstart : (match (d.c.ops.map (recOf (actorTable applied))).head? with
-      | some o => o.id.ctr | none => d.maxOp + 1) = d.c.startOp := by
+  have hstart : firstCtr (d.c.ops.map (recOf (actorTable applied))) (d.maxOp + 1) = d.c.startOp := by
+    unfold firstCtr
     cases hops' : d.c.ops with
     | nil =>
       have := hr.startPos d hd
-      simp only [List.map_nil, List.head?_nil, DChange.maxOp, hops', List.length_nil]
-      omega
+      simp only [List.map_nil, List.head?_nil, DChange.maxOp, hops', List.length_nil, Nat.add_zero]
+      exact Nat.sub_add_cancel this
     | cons o rest =>
       have := hr.ids d hd 0 o (by rw [hops']; rfl)
-      simp only [List.map_cons, List.head?_cons, recOf, toIdx, this]
-      omega
+      simp only [List.map_cons, List.head?_cons, recOf, toIdx, this, Nat.add_zero]
   rw [hstart]
   -- the rows
   have hrows : (d.c.ops.map (recOf (actorTable applied))).map
